@@ -94,7 +94,7 @@ def run(chk):
     N = (150 if quick else 4000) * (5 if broken else 1)
     trees = [rand_tree(rng, rng.randint(1, 6)) for _ in range(N)]
     # single adversarial scalars and keys exhaustively
-    trees += [s for s in ADV] + [pspec.Map({k: b'v'}) for k in KEYS] + [[s] for s in ADV]
+    trees += [s for s in ADV] + [pspec.Map({k: b'v'}) for k in KEYS] + [[s] for s in ADV] + [None] * 8
     # phase 1: build + export
     lines, idx = [], []
     for t in trees:
@@ -118,7 +118,8 @@ def run(chk):
         yhex = exp.split()[-1]
         # import into a register that already holds something else
         pre = build_lines(1, rng.choice([None, b'old', pspec.Map({b'stale': b'1', b'a': pspec.Map({b'x': b'y'})}), [b'1', b'2', b'3']]))
-        lines2 += ['pt 1 free'] + pre + ['pt 1 import ' + yhex, 'pt 1 digest', 'pt 1 yamltree ' + yhex]
+        # (both importers: from a string and from a file)
+        lines2 += ['pt 1 free'] + pre + ['pt 1 %s %s' % (rng.choice(['import', 'importf']), yhex), 'pt 1 digest', 'pt 1 yamltree ' + yhex]
         meta.append((t, len(lines2), lines[a:b], yhex, len(pre)))
     lines2 += ['pt 0 free', 'pt 1 free', 'pt 0 live']
     o2, rc, err = vlib.run_lines(exe, lines2)
